@@ -2,6 +2,35 @@ import TLX.Props.C02AllFile
 set_option autoImplicit false
 set_option linter.unusedSimpArgs false
 set_option linter.unusedVariables false
+/-! # C02, all together — `quic_capture_exact_all`
+
+ONE theorem from the bytes of a capture file and the text of a key-log file to the bytes of the output file, combining what
+existed separately: file level among other QUIC / TLS traffic (`C02File2`, separation on the CAPTURE: `ExportDemux`), one
+interleaved history (`C02Capstone3`), 0-RTT anywhere — exported or, for the wrong suite, missing (`C02Capstone4`, `C02Zr2`) —,
+a Retry before the handshake (`C02Capstone.quic_connection_exact_retry`), hypotheses in RFC / file terms (`C02Rfc`), and no
+write-abort alternative under explicit ranges on ALL exported frames.
+
+  `QuicCaptureAll`            every hypothesis, classified in the structure's comments
+  `quic_capture_exact_all`    the theorem; `quic_capture_all_ranges`: without the write-abort alternative
+  `blockAll`                  the demanded block in the senders' terms
+  `session_of_all`            the connection's ONE session in `quic_sessions` and its export
+  `capture_session_gen`, `retry_prefix`, `mix_of_rfc`, `no_abort_of_all_fit`   the parts
+
+REMAINING CONDITIONS, classified (fields of `QuicCaptureAll`):
+  RFC-given           hsOk, tls13 / suite / tls13R / suiteR (registry), saLen / caLen, described (RFC 9000 / 9001 wire
+                      format), retryOk, mixDgs / send1 (packet-number windows, frame types, header protection of the suite,
+                      Handshake packets after the ServerHello, 1-RTT key generation 0 before the handshake is done …), mixIns
+  key-log FILE        linesWf, lineCH … lineE, onlyCH … onlyE (the five NSS lines; no other secret for the same label/random)
+  C02's quantifier    distinct (consecutive exported datagrams told apart by (µs, direction)), times (no −1.0 time stamp)
+  options             noc, nometa, pmOk, portsOk, endpoints, clientPort
+  capture shape       noiseR / noiseA / phaseA / phaseB (what stands where), fromClient, firstLong, sepOwn / sepOther
+                      (other QUIC connections separated on the capture)
+  recorded limits     routesA / routesB (longest-known-CID routing, `RouteOk`); `HsPkR.late` inside mixDgs (no client Initial
+                      with CRYPTO after the ServerHello); `YDgR.early` (every 0-RTT packet comes after the ClientHello is
+                      complete: `EarlyAt`; before that the tool has no Early key — open finding `early-data-lost`);
+                      the first attempt before a Retry is ONE datagram
+  primitive laws      lawful, sha256, outLen; for wrong-suite 0-RTT packets `RejectedT` (AEAD authenticity) inside mixDgs
+Core Lean only. -/
 namespace TLX.Props.C02All
 open TLX TLX.MainLoop TLX.Spec.Demux TLX.Lemmas.MainLoop TLX.Dissect TLX.OutBytes
 open TLX.Container (Item)
@@ -633,5 +662,296 @@ theorem no_abort_of_all_fit (mask : Quic.Dissect.MaskFn) (H : Crypto.Prims) (P :
   cases hw
 
 end NoAbortAll
+
+/-! ### THE combined theorem -/
+section All
+open TLX.Export TLX.Quic.Session TLX.Cipher TLX.Props.C02Session TLX.Spec.KeySchedules TLX.Props.C02Capstone4
+open TLX.Props.C02Rfc TLX.Spec.RfcQuic TLX.Spec.RfcSuite TLX.Lemmas.C01Rfc TLX.Props.C09Found TLX.Lemmas.ExportDemux
+open TLX.Props.C01File2
+variable (maskFn : Quic.Dissect.MaskFn) (H : Crypto.Prims) (Pc : Cipher.Prims)
+
+/-- the client's first Initial datagram and the server's Retry, with what stands before and between them in the capture -/
+structure RetryPart where
+  n1 : List QEv3
+  tA : Container.Time
+  frA : Spec.FrameBuild.Frame
+  uA : Udp
+  dA : DgH
+  n2 : List QEv3
+  tR : Container.Time
+  frR : Spec.FrameBuild.Frame
+  uR : Udp
+  r : Retry
+
+def RetryPart.evs (x : RetryPart) : List QEv3 :=
+  x.n1 ++ .pre x.tA x.frA x.uA x.dA :: (x.n2 ++ [.retry x.tR x.frR x.uR x.r])
+
+def preOf : Option RetryPart → List QEv3
+  | none => []
+  | some x => x.evs
+
+/-- the frame of the connection's first datagram (its MAC addresses go into the export) -/
+def firstFrame : Option RetryPart → Spec.FrameBuild.Frame → Spec.FrameBuild.Frame
+  | none, fr0 => fr0
+  | some x, _ => x.frA
+
+/-- the DCID of the client's first Initial (the Initial keys of the first attempt) -/
+def dcidA : Option RetryPart → Bytes
+  | none => []
+  | some x => dgDcid x.dA
+
+/-- the senders' bookkeeping when the interleaved part begins -/
+def r0Of : Option RetryPart → RTrk
+  | none => rtrk0
+  | some x => (rtrk0.run x.dA.pkts).afterRetry
+
+/-- the events of the capture: (Retry part) noise, the client's first datagram of the (second) attempt, the rest of the
+    interleaved part, the 1-RTT-only part -/
+def allEvs (rp : Option RetryPart) (preA : List QEv3) (t0 : Container.Time) (fr0 : Spec.FrameBuild.Frame) (u0 : Udp)
+    (d0 : DgY) (restA evsB : List QEv3) : List QEv3 :=
+  ((preOf rp ++ preA) ++ .mix t0 fr0 u0 d0 :: restA) ++ evsB
+
+/-- **EVERYTHING `quic_capture_exact_all` assumes**, in RFC / file / capture terms. -/
+structure QuicCaptureAll (L : SealLaws Pc) (args : Args) (ls : List (FLine × Bool)) (pm : List (Int × Int))
+    (ports : List Int) (fl : Flow) (hs : ConfHs) (ch sh ca sa e : Bytes) (sp spR : SuiteSpec) (sel selR : SuiteSel)
+    (csR : Bytes) (rp : Option RetryPart) (preA : List QEv3) (t0 : Container.Time) (fr0 : Spec.FrameBuild.Frame) (u0 : Udp)
+    (d0 : DgY) (restA evsB : List QEv3) : Prop where
+  /-- primitive laws -/
+  lawful : H.Lawful
+  sha256 : H.sha256.outLen = 32
+  outLen : (hashOf H sel.hash).outLen < 65536
+  /-- options and reader -/
+  times : ∀ e ∈ (allEvs rp preA t0 fr0 u0 d0 restA evsB).map QEv3.cap, Ingest.isMinusOne e.t = false
+  noc : args.checksumTest = false
+  nometa : args.metadata = false
+  pmOk : Options.getPortMap Options.Src.bare args.mArg = .ok pm
+  portsOk : Options.serverPorts Options.Src.builtin Options.Src.pDefault args.pArg = .ok ports
+  endpoints : clientEp fl ≠ serverEp fl
+  clientPort : ports.contains (fl.clientPort : Int) = false
+  /-- RFC 8446 handshake; suites by the registry: the selected one, and the one of the resumed session (0-RTT) -/
+  hsOk : hs.Ok
+  tls13 : hs.sh.cipherSuite ∈ tls13Codes
+  suite : quicSuite (Bytes.beNat hs.sh.cipherSuite) = some (sp, sel)
+  tls13R : csR ∈ tls13Codes
+  suiteR : quicSuite (Bytes.beNat csR) = some (spR, selR)
+  saLen : sa.length = (hashOf H sel.hash).outLen
+  caLen : ca.length = (hashOf H sel.hash).outLen
+  /-- the key-log file, as text: the connection's five NSS lines -/
+  linesWf : ∀ x ∈ ls, x.1.WF
+  lineCH : HasLine ls labelCHTS (Pipeline.natsOfBytes hs.ch.random) (Pipeline.natsOfBytes ch)
+  lineSH : HasLine ls labelSHTS (Pipeline.natsOfBytes hs.ch.random) (Pipeline.natsOfBytes sh)
+  lineCA : HasLine ls labelCTS0 (Pipeline.natsOfBytes hs.ch.random) (Pipeline.natsOfBytes ca)
+  lineSA : HasLine ls labelSTS0 (Pipeline.natsOfBytes hs.ch.random) (Pipeline.natsOfBytes sa)
+  lineE : HasLine ls labelCETS (Pipeline.natsOfBytes hs.ch.random) (Pipeline.natsOfBytes e)
+  onlyCH : OnlySecret ls labelCHTS (Pipeline.natsOfBytes hs.ch.random) (Pipeline.natsOfBytes ch)
+  onlySH : OnlySecret ls labelSHTS (Pipeline.natsOfBytes hs.ch.random) (Pipeline.natsOfBytes sh)
+  onlyCA : OnlySecret ls labelCTS0 (Pipeline.natsOfBytes hs.ch.random) (Pipeline.natsOfBytes ca)
+  onlySA : OnlySecret ls labelSTS0 (Pipeline.natsOfBytes hs.ch.random) (Pipeline.natsOfBytes sa)
+  onlyE : OnlySecret ls labelCETS (Pipeline.natsOfBytes hs.ch.random) (Pipeline.natsOfBytes e)
+  /-- the capture: what stands where -/
+  noiseR : ∀ x, rp = some x → (∀ ev ∈ x.n1, isNoise ev = true) ∧ (∀ ev ∈ x.n2, isNoise ev = true)
+  noiseA : ∀ ev ∈ preA, isNoise ev = true
+  phaseA : ∀ ev ∈ restA, okA ev = true
+  phaseB : ∀ ev ∈ evsB, okB ev = true
+  fromClient : d0.x.base.srv = false
+  firstLong : d0.x.ver = .v1
+  described : QDescribed3 fl (dgWire H Pc L (dcidA rp) sel sh ch) (DgX.wire H Pc L d0.x.dcid sel selR sh ch sa ca e)
+    (wireOf H Pc L sel .v1 (rfcGen (hashOf H sel.hash) sel.keyLen sa ca 0)) (optsOf args ports pm)
+    (allEvs rp preA t0 fr0 u0 d0 restA evsB)
+  /-- the senders: first attempt (if a Retry follows), interleaved part, 1-RTT-only part — relative to THEIR bookkeeping -/
+  retryOk : ∀ x, rp = some x → x.dA.srv = false ∧
+    HsDgR maskFn H Pc L (dgDcid x.dA) sel sh ch rtrk0 x.dA ∧ ∃ rest, hs.ins = insOf x.dA.pkts ++ rest
+  mixDgs : YDgsR maskFn H Pc L d0.x.dcid sel selR sh ch sa ca e hs [] (r0Of rp) (d0 :: mixOf restA)
+  mixIns : allInsM ((d0 :: mixOf restA).map (·.x.base)) = hs.ins
+  routesA : RoutesYR (DgX.wire H Pc L d0.x.dcid sel selR sh ch sa ca e) ((r0Of rp).dgx d0.eff) (mixOf restA)
+  send1 : Send1 maskFn H Pc L sel .v1 (rfcGen (hashOf H sel.hash) sel.keyLen sa ca 0)
+      (quicHp (hashOf H sel.hash) ca sel.keyLen) (quicHp (hashOf H sel.hash) sa sel.keyLen) (hpChacha sel) 0 0
+      (((d0 :: mixOf restA).map DgY.eff).foldl RTrk.dgx (r0Of rp)).tc.app
+      (((d0 :: mixOf restA).map DgY.eff).foldl RTrk.dgx (r0Of rp)).ts.app
+      (((d0 :: mixOf restA).map DgY.eff).foldl RTrk.dgx (r0Of rp)).cc
+      (((d0 :: mixOf restA).map DgY.eff).foldl RTrk.dgx (r0Of rp)).sc (onesOf3 evsB)
+  routesB : Routes1 (wireOf H Pc L sel .v1 (rfcGen (hashOf H sel.hash) sel.keyLen sa ca 0))
+      (((d0 :: mixOf restA).map DgY.eff).foldl RTrk.dgx (r0Of rp)).cc
+      (((d0 :: mixOf restA).map DgY.eff).foldl RTrk.dgx (r0Of rp)).sc (onesOf3 evsB)
+  /-- C02's quantifier: consecutive exported datagrams are told apart by (capture microsecond, direction) -/
+  distinct : C02Out.DistinctAdjacent false (((d0 :: mixOf restA).map DgY.eff).map inDgX ++
+      (onesOf3 evsB).map fun d => inDg d.x)
+  /-- the other QUIC connections of the capture are separated from this one ON THE CAPTURE (`CaptureSeparated`: other
+      4-tuples; no long-header DCID, no short-header prefix that is a connection ID the other side's sessions ever hold),
+      both ways -/
+  sepOwn : CaptureSeparated (quicMachine maskFn H Pc (capInfo ((allEvs rp preA t0 fr0 u0 d0 restA evsB).map QEv3.cap)))
+      (optsOf args ports pm)
+      (ownIn fl ((fileKeysOf (some (fileText ls))).getD []) 0 (allEvs rp preA t0 fr0 u0 d0 restA evsB))
+      (othIn (optsOf args ports pm) ((fileKeysOf (some (fileText ls))).getD []) 0 (allEvs rp preA t0 fr0 u0 d0 restA evsB))
+  sepOther : CaptureSeparated (quicMachine maskFn H Pc (capInfo ((allEvs rp preA t0 fr0 u0 d0 restA evsB).map QEv3.cap)))
+      (optsOf args ports pm)
+      (othIn (optsOf args ports pm) ((fileKeysOf (some (fileText ls))).getD []) 0 (allEvs rp preA t0 fr0 u0 d0 restA evsB))
+      (ownIn fl ((fileKeysOf (some (fileText ls))).getD []) 0 (allEvs rp preA t0 fr0 u0 d0 restA evsB))
+
+variable {maskFn H Pc}
+
+theorem hsDgOk_of_rfc (h : ConfHs) (hok : h.Ok) (L : SealLaws Pc) (sel : SuiteSel) (sh ch : Bytes)
+    (hsel : selectSuite h.sh.cipherSuite = some sel) (dA : DgH) (rest : List CryptoIn)
+    (hins : h.ins = insOf dA.pkts ++ rest) (hd : HsDgR maskFn H Pc L (dgDcid dA) sel sh ch rtrk0 dA) :
+    HsDgOk maskFn H Pc L (dgDcid dA) sel sh ch trk0 dA ∧ Sync (insOf dA.pkts) (trk0.run dA.pkts) (rtrk0.run dA.pkts) := by
+  obtain ⟨d1, d2, d3⟩ := hd
+  obtain ⟨p1, p2⟩ := pks_of_rfc h hok L (dgDcid dA) sel sh ch hsel dA.pkts [] rest (by simpa using hins) trk0 rtrk0 sync0 d3
+  exact ⟨⟨d1, d2, p1⟩, by simpa using p2⟩
+
+/-- the session of the connection in `quic_sessions`, and its export, from the hypotheses in RFC / file / capture terms -/
+theorem session_of_all {L : SealLaws Pc} {args : Args} {ls : List (FLine × Bool)} {pm : List (Int × Int)}
+    {ports : List Int} {fl : Flow} {hs : ConfHs} {ch sh ca sa e : Bytes} {sp spR : SuiteSpec} {sel selR : SuiteSel}
+    {csR : Bytes} {rp : Option RetryPart} {preA : List QEv3} {t0 : Container.Time} {fr0 : Spec.FrameBuild.Frame} {u0 : Udp}
+    {d0 : DgY} {restA evsB : List QEv3}
+    (h : QuicCaptureAll maskFn H Pc L args ls pm ports fl hs ch sh ca sa e sp spR sel selR csR rp preA t0 fr0 u0 d0 restA
+      evsB) :
+    CapOk ((allEvs rp preA t0 fr0 u0 d0 restA evsB).map QEv3.cap) ∧
+    ∃ (S1 S2 : List (QuicSess QConn)) (sess : QuicSess QConn),
+      quicRun (quicMachine maskFn H Pc (capInfo ((allEvs rp preA t0 fr0 u0 d0 restA evsB).map QEv3.cap)))
+        (optsOf args ports pm) []
+        (quicView (optsOf args ports pm) ((fileKeysOf (some (fileText ls))).getD [])
+          (itemsFrom 0 ((allEvs rp preA t0 fr0 u0 d0 restA evsB).map QEv3.cap))) = S1 ++ [sess] ++ S2 ∧
+      (quicMachine maskFn H Pc (capInfo ((allEvs rp preA t0 fr0 u0 d0 restA evsB).map QEv3.cap))).out args.metadata sess.st =
+        blockAll args pm fl (firstFrame rp fr0) ((d0 :: mixOf restA).map DgY.eff) (onesOf3 evsB) := by
+  obtain ⟨hsel, _, _⟩ := selectSuite_tls13 _ h.tls13 sp sel h.suite
+  obtain ⟨hselR, _, _⟩ := selectSuite_tls13 _ h.tls13R spR selR h.suiteR
+  have hkl : KeylogHas ((fileKeysOf (some (fileText ls))).getD []) hs.ch.random ch sh ca sa (some e) :=
+    keylogHas_text ls h.linesWf _ _ _ _ _ (some e) h.lineCH h.lineSH h.lineCA h.lineSA h.onlyCH h.onlySH h.onlyCA h.onlySA
+      ⟨h.lineE, h.onlyE⟩
+  have hbase := evBase_of_described H Pc fl L (dcidA rp) d0.x.dcid sel selR sh ch sa ca e _ _ h.described
+  have hsep1 := quicSeparated_of_capture _ _ h.sepOwn
+  have hsep2 := quicSeparated_of_capture _ _ h.sepOther
+  have htrAll := ptrace_of_conformant hs h.hsOk
+  rw [h.nometa]
+  generalize hkeys : (fileKeysOf (some (fileText ls))).getD [] = keys at *
+  obtain ⟨hdg0, _, _, _⟩ := h.described (QEv3.mix t0 fr0 u0 d0) (by simp [allEvs])
+  rw [h.fromClient] at hdg0
+  have hop : (optsOf args ports pm).ports = ports := rfl
+  cases rp with
+  | none =>
+    -- no Retry: the first datagram creates the session
+    obtain ⟨m1, m2, m3, m4, m5, m6, m7, m8⟩ := mix_of_rfc hs h.hsOk L d0.x.dcid sel selR sh ch sa ca e hsel
+      (DgX.wire H Pc L d0.x.dcid sel selR sh ch sa ca e) d0 (mixOf restA) h.mixIns trk0 rtrk0 sync0 h.mixDgs h.routesA
+    have hRl : (preOf none ++ preA) = preA := rfl
+    have hinfo0 : capInfo ((allEvs none preA t0 fr0 u0 d0 restA evsB).map QEv3.cap) preA.length =
+        ⟨0, Container.usOfFloat t0.toFloat, fr0.srcMac, fr0.dstMac, fl.v6⟩ := by
+      have := capInfo_at ((allEvs none preA t0 fr0 u0 d0 restA evsB).map QEv3.cap) preA.length
+        (QEv3.mix t0 fr0 u0 d0).cap (by
+          rw [List.getElem?_map]
+          show (((preA ++ QEv3.mix t0 fr0 u0 d0 :: restA) ++ evsB)[preA.length]?).map _ = _
+          rw [(getElem_mid preA (QEv3.mix t0 fr0 u0 d0) restA evsB).2.2.2]; rfl)
+      simp only [QEv3.cap] at this
+      rw [this, infoOf_dg fl _ fr0 u0 hdg0]; rfl
+    obtain ⟨hci, hroles⟩ := connIs_new maskFn H Pc _ (optsOf args ports pm) ports hop fl h.clientPort u0.payload preA.length
+      fr0 _ hinfo0
+    have hfresh := new_fresh maskFn H Pc (capInfo ((allEvs none preA t0 fr0 u0 d0 restA evsB).map QEv3.cap))
+      (optsOf args ports pm) (dgPkt fl false u0.payload preA.length)
+    have hv0 : sver d0.x.ver = .v1 := by rw [h.firstLong]; rfl
+    obtain ⟨k1, S1, S2, sess, k2, k3⟩ := capture_session_gen maskFn H Pc h.lawful L args keys preA t0 fr0 u0 d0 restA evsB
+      h.times h.noc pm ports fl h.endpoints hs.ch.random hs.sh.cipherSuite ch sh ca sa e sel selR csR hsel hselR h.outLen
+      h.saLen h.caLen hkl h.phaseA h.phaseB _ h.described hbase h.fromClient h.firstLong trk0 none m1
+      (by rw [h.mixIns]; exact htrAll) m3 m2
+      (by rw [m4, m5, m6, m7, m8]; exact h.send1) (by rw [m7, m8]; exact h.routesB) h.distinct hsep1 hsep2
+      [] ⟨serverEp fl, clientEp fl, _⟩ _
+      (by rw [(ownIn_noise fl keys 0 preA h.noiseA).1]; rfl)
+      (by
+        rw [quicHandle_new]
+        simp only [quicNew, hroles, Hdr.dcid, Hdr.ver, h.firstLong]
+        rfl)
+      rfl rfl rfl hci.client hfresh.2 (by rw [hfresh.1]; rfl)
+      (by
+        rw [show noOut ((quicMachine maskFn H Pc _).new (optsOf args ports pm) (dgPkt fl false u0.payload preA.length)).st =
+          St.init (params H Pc []) from by rw [hfresh.1]; rfl, hv0]
+        exact feedPre_fresh H Pc keys h.sha256 d0.x.dcid sel ch sh ca sa)
+      (by intro selX hx; cases hx)
+    exact ⟨k1, S1, S2, sess, k2, k3.trans (expectedOutX_block args pm ports fl fr0 _ hci _ _)⟩
+  | some x =>
+    obtain ⟨hsrvA, hdgRfc, restIns, hinsA⟩ := h.retryOk x rfl
+    obtain ⟨hn1, hn2⟩ := h.noiseR x rfl
+    obtain ⟨hokA, hsyncA⟩ := hsDgOk_of_rfc hs h.hsOk L sel sh ch hsel x.dA restIns hinsA hdgRfc
+    obtain ⟨m1, m2, m3, m4, m5, m6, m7, m8⟩ := mix_of_rfc hs h.hsOk L d0.x.dcid sel selR sh ch sa ca e hsel
+      (DgX.wire H Pc L d0.x.dcid sel selR sh ch sa ca e) d0 (mixOf restA) h.mixIns (trk0.run x.dA.pkts).afterRetry
+      (rtrk0.run x.dA.pkts).afterRetry (sync_afterRetry _ _ _ hsyncA) h.mixDgs h.routesA
+    have hReq : preOf (some x) ++ preA = x.n1 ++ .pre x.tA x.frA x.uA x.dA :: (x.n2 ++ .retry x.tR x.frR x.uR x.r :: preA) := by
+      simp [preOf, RetryPart.evs, List.append_assoc]
+    have hlen : (preOf (some x) ++ preA).length = x.n1.length + 1 + x.n2.length + 1 + preA.length := by
+      rw [hReq]; simp; omega
+    obtain ⟨hA1, hA2, hA3, _⟩ := h.described (QEv3.pre x.tA x.frA x.uA x.dA) (by simp [allEvs, preOf, RetryPart.evs])
+    obtain ⟨hR1, hR2, hR3, hR4, hR5⟩ := h.described (QEv3.retry x.tR x.frR x.uR x.r) (by simp [allEvs, preOf, RetryPart.evs])
+    have hcapA : ((allEvs (some x) preA t0 fr0 u0 d0 restA evsB).map QEv3.cap)[x.n1.length]? =
+        some (QEv3.pre x.tA x.frA x.uA x.dA).cap := by
+      rw [List.getElem?_map]
+      simp [allEvs, preOf, RetryPart.evs, List.getElem?_append_left, List.getElem?_append_right]
+    obtain ⟨s2, q1, q2, q3, q4, q5, q6, q7⟩ := retry_prefix maskFn H Pc h.lawful h.sha256 L (optsOf args ports pm) ports hop keys fl
+      h.endpoints h.clientPort hs.ch.random hs.sh.cipherSuite ch sh ca sa (some e) sel hsel hkl x.n1 x.tA x.frA x.uA x.dA x.n2
+      x.tR x.frR x.uR x.r preA hn1 hn2 h.noiseA ((allEvs (some x) preA t0 fr0 u0 d0 restA evsB).map QEv3.cap) hcapA hA1 hA2 hA3
+      hsrvA hR1 hR2 hR3 hR4 hR5 hokA (ptrace_prefix _ _ _ _ restIns (by rw [← hinsA]; exact htrAll))
+    have hv0 : sver d0.x.ver = .v1 := by rw [h.firstLong]; rfl
+    obtain ⟨k1, S1, S2, sess, k2, k3⟩ := capture_session_gen maskFn H Pc h.lawful L args keys (preOf (some x) ++ preA) t0 fr0 u0
+      d0 restA evsB h.times h.noc pm ports fl h.endpoints hs.ch.random hs.sh.cipherSuite ch sh ca sa e sel selR csR hsel hselR
+      h.outLen h.saLen h.caLen hkl h.phaseA h.phaseB _ h.described hbase h.fromClient h.firstLong
+      (trk0.run x.dA.pkts).afterRetry none m1 (by rw [h.mixIns]; exact htrAll) m3 m2
+      (by rw [m4, m5, m6, m7, m8]; exact h.send1) (by rw [m7, m8]; exact h.routesB) h.distinct hsep1 hsep2
+      [s2] ⟨s2.server, s2.client, _⟩ s2.st
+      (by have q1' := q1; rw [← hReq] at q1'; exact q1')
+      (by
+        rw [h.firstLong]
+        exact quicHandle_long _ _ keys _ _ _ s2 (dgPkt_matches fl s2 q2 q3 _ _ _))
+      rfl q2 q3 q4.client q5 q6 (by rw [hv0]; exact q7 keys d0.x.dcid) (by intro selX hx; cases hx)
+    exact ⟨k1, S1, S2, sess, k2, k3.trans (expectedOutX_block args pm ports fl x.frA _ q4 _ _)⟩
+
+/-- **C02, ALL TOGETHER, FROM FILE TO FILE.** A capture FILE in any container variant (independent encoder) and the TEXT of a
+    key-log file. The capture holds — among packets the loop does not take for QUIC (TLS over TCP, anything else) and
+    capture-separated other QUIC connections — the datagrams of ONE conformant QUIC v1 connection:
+    optionally the client's first Initial and the server's Retry; the (second) attempt as one interleaved history of
+    datagrams of coalesced packets of all levels — ClientHello cut and ordered in any way, 0-RTT packets of the resumed suite
+    anywhere, 0.5-RTT data, 1-RTT packets behind Handshake packets; then any conformant 1-RTT history (key updates,
+    connection-ID switches, packet-number gaps). The key-log text has the connection's five NSS lines. Then the output file
+    (unless scapy / dpkt refuse a frame: `quic_capture_all_ranges` removes the alternative) reads back, as the block of the
+    connection's session, exactly `blockAll`: one UDP frame per datagram that carried STREAM data, in capture order,
+    payload = that datagram's stream data, addressed by direction with the exported server port, at the datagram's
+    capture microsecond. 0-RTT data is included when the tool's Early keys are the client's (`DgY.good`; `YDgR.early`:
+    before the ServerHello iff the resumed suite is the FIRST of the client's offer, after it iff it is the selected one)
+    and missing otherwise (`RejectedT`). -/
+theorem quic_capture_exact_all {L : SealLaws Pc} {args : Args} {ls : List (FLine × Bool)} {pm : List (Int × Int)}
+    {ports : List Int} {fl : Flow} {hs : ConfHs} {ch sh ca sa e : Bytes} {sp spR : SuiteSpec} {sel selR : SuiteSel}
+    {csR : Bytes} {rp : Option RetryPart} {preA : List QEv3} {t0 : Container.Time} {fr0 : Spec.FrameBuild.Frame} {u0 : Udp}
+    {d0 : DgY} {restA evsB : List QEv3}
+    (h : QuicCaptureAll maskFn H Pc L args ls pm ports fl hs ch sh ca sa e sp spR sel selR csR rp preA t0 fr0 u0 d0 restA
+      evsB)
+    (cv : Spec.Containers.Variant) (cevs : List Spec.Containers.Ev) (hcwf : cv.WF cevs)
+    (hitems : cevs.filterMap (Spec.Containers.scale cv) =
+      ((allEvs rp preA t0 fr0 u0 d0 restA evsB).map QEv3.cap).map CapEv.item) :
+    (∃ e', exportFile maskFn H Pc args cv.isLegacy (some (fileText ls)) (Spec.Containers.encode cv cevs) = .abort (.write e')) ∨
+    ∃ f, exportFile maskFn H Pc args cv.isLegacy (some (fileText ls)) (Spec.Containers.encode cv cevs) = .file f ∧
+      ReadsBack f (blockAll args pm fl (firstFrame rp fr0) ((d0 :: mixOf restA).map DgY.eff) (onesOf3 evsB)) := by
+  obtain ⟨hcap, S1, S2, sess, hq, hblk⟩ := session_of_all h
+  exact export_of_quic_session_among maskFn H Pc args cv.isLegacy (some (fileText ls)) _ _
+    (by rw [Props.C12.reader_roundtrip cv cevs hcwf, hitems]) hcap h.noc pm ports h.pmOk h.portsOk S1 S2 sess hq _ hblk
+
+/-- … WITHOUT the write-abort alternative, also when other sessions export: every frame the run hands to the writer — the
+    block of this connection, the blocks of the other QUIC and TLS sessions — is taken by the write loop (`WritesOk`: scapy
+    serialises it, dpkt stores its time). -/
+theorem quic_capture_all_ranges {L : SealLaws Pc} {args : Args} {ls : List (FLine × Bool)} {pm : List (Int × Int)}
+    {ports : List Int} {fl : Flow} {hs : ConfHs} {ch sh ca sa e : Bytes} {sp spR : SuiteSpec} {sel selR : SuiteSel}
+    {csR : Bytes} {rp : Option RetryPart} {preA : List QEv3} {t0 : Container.Time} {fr0 : Spec.FrameBuild.Frame} {u0 : Udp}
+    {d0 : DgY} {restA evsB : List QEv3}
+    (h : QuicCaptureAll maskFn H Pc L args ls pm ports fl hs ch sh ca sa e sp spR sel selR csR rp preA t0 fr0 u0 d0 restA
+      evsB)
+    (cv : Spec.Containers.Variant) (cevs : List Spec.Containers.Ev) (hcwf : cv.WF cevs)
+    (hitems : cevs.filterMap (Spec.Containers.scale cv) =
+      ((allEvs rp preA t0 fr0 u0 d0 restA evsB).map QEv3.cap).map CapEv.item)
+    (hall : ∀ out, framesFrom maskFn H Pc freshState args (fileKeysOf (some (fileText ls)))
+        (itemsFrom 0 ((allEvs rp preA t0 fr0 u0 d0 restA evsB).map QEv3.cap))
+        (capInfo ((allEvs rp preA t0 fr0 u0 d0 restA evsB).map QEv3.cap)) = .ok out → ∀ q ∈ out, WritesOk q) :
+    ∃ f, exportFile maskFn H Pc args cv.isLegacy (some (fileText ls)) (Spec.Containers.encode cv cevs) = .file f ∧
+      ReadsBack f (blockAll args pm fl (firstFrame rp fr0) ((d0 :: mixOf restA).map DgY.eff) (onesOf3 evsB)) := by
+  rcases quic_capture_exact_all h cv cevs hcwf hitems with habort | hfile
+  · exfalso
+    exact no_abort_of_all_fit maskFn H Pc args cv.isLegacy (some (fileText ls)) _ _
+      (by rw [Props.C12.reader_roundtrip cv cevs hcwf, hitems]) (session_of_all h).1 h.noc hall habort
+  · exact hfile
+
+end All
 
 end TLX.Props.C02All
